@@ -334,7 +334,7 @@ func (c *SpecCtx) index(base, idx Value) Value {
 	case *Slice:
 		i := c.intTerm(idx)
 		et := b.Typ.Underlying().(*types.Slice).Elem()
-		p := &Ptr{Kind: "elem", Ref: b.Arr, Idx: addTerms(b.Off, i), Root: et}
+		p := &Ptr{Kind: "elem", Ref: b.Arr, Idx: ixTerm(b.Off, i), Root: et}
 		return e.load(c.st, p)
 	case *MapV:
 		kt := b.Typ.Underlying().(*types.Map).Key()
@@ -348,6 +348,23 @@ func (c *SpecCtx) index(base, idx Value) Value {
 	}
 	specFail("cannot index %T", base)
 	return nil
+}
+
+// ixTerm is the element index of position i in a slice that starts at offset off of its
+// backing array. It is off+i, but written with the function ix (axiom: ix(o,i) = o+i) unless
+// off is the literal 0: z3 reorders the arguments of + when it normalises sums, so a trigger
+// (select row (+ off $j)) matches or fails depending on unrelated terms in the query.
+func ixTerm(off, i string) string {
+	if off == "0" {
+		return i
+	}
+	if i == "0" {
+		return off
+	}
+	if isNumeral(off) && isNumeral(i) {
+		return fmt.Sprint(atoi(off) + atoi(i))
+	}
+	return sx("ix", off, i)
 }
 
 func addTerms(a, b string) string {
@@ -1240,7 +1257,7 @@ func (c *SpecCtx) packedElemTerm(x *SExpr) (string, bool) {
 	if _, _, _, ok := c.e.packed(et); !ok {
 		return "", false
 	}
-	p := &Ptr{Kind: "elem", Ref: b.Arr, Idx: addTerms(b.Off, c.intTerm(c.eval(x.Args[1]))), Root: et}
+	p := &Ptr{Kind: "elem", Ref: b.Arr, Idx: ixTerm(b.Off, c.intTerm(c.eval(x.Args[1]))), Root: et}
 	name, srt := c.e.locName(p, Leaf{})
 	arr := c.e.heapGet(c.st, name, srt)
 	return mkSelect(mkSelect(arr, p.Ref), p.Idx), true
